@@ -112,7 +112,7 @@ func (obj *ShapeHmmDataSet) EvaluateLogPdf(edist []MatrixPdf, pool ThreadPool) e
     if xm != c {
       return fmt.Errorf("data has invalid dimension")
     }
-    pool.AddRangeJob(0, n-r, g, func(i int, pool ThreadPool, erf func() error) error {
+    if err := pool.AddRangeJob(0, n-r, g, func(i int, pool ThreadPool, erf func() error) error {
       if erf() != nil {
         return nil
       }
@@ -132,7 +132,9 @@ func (obj *ShapeHmmDataSet) EvaluateLogPdf(edist []MatrixPdf, pool ThreadPool) e
         return fmt.Errorf("probability is zero for all models on observation `%v'", x)
       }
       return nil
-    })
+    }); err != nil {
+      return fmt.Errorf("evaluating emission probabilities failed: %v", err)
+    }
   }
   if err := pool.Wait(g); err != nil {
     return fmt.Errorf("evaluating emission probabilities failed: %v", err)
